@@ -94,7 +94,9 @@ def gen_hostile(rng, t, inp):
     """Pretext rows that PretextView could not have produced."""
     mode = rng.choice(["perturb", "perturb", "arbitrary", "dropdup", "overlap", "tagnoise"])
     labels = {f"hostile:{mode}"}
-    pieces, _ = gen_pieces(rng, inp, t, cut_prob=0.8)
+    pieces, _ = gen_pieces(rng, inp, t, cut_prob=rng.choice([0.3, 0.8]))
+    pert_k = rng.choice([0.3, 1, 3])
+    pert_p = rng.choice([0.15, 0.5])
     baits = []
     by_name = {s[0]: scaffold_len(s) for s in inp}
     if mode == "arbitrary" or not pieces:
@@ -114,23 +116,23 @@ def gen_hostile(rng, t, inp):
                 if r < 0.4:
                     baits.append((sn, st, en))
             d1 = d2 = 0
-            w = int(3 * t) + 2
+            w = int(pert_k * t) + 2
             if mode == "overlap":
-                if rng.random() < 0.5:
+                if rng.random() < pert_p:
                     d1 = -rng.randint(1, 6 * w)
-                if rng.random() < 0.5:
+                if rng.random() < pert_p:
                     d2 = rng.randint(1, 6 * w)
             elif mode != "tagnoise":
-                if rng.random() < 0.5:
+                if rng.random() < pert_p:
                     d1 = rng.randint(-w, w)
-                if rng.random() < 0.5:
+                if rng.random() < pert_p:
                     d2 = rng.randint(-w, w)
             st2 = max(1, st + d1)
             en2 = max(st2, en + d2)
             baits.append((sn, st2, en2))
     rng.shuffle(baits)
     tags_pool = ["Contaminant", "Haplotig", "Unloc", "FalseDuplicate", "Target", "X", "Hap1", "Hap2", "Primary", "Singleton", "Cut"]
-    noise = 0.04 if mode != "tagnoise" else 0.25
+    noise = 0.0 if mode != "tagnoise" else 0.12
     pt = []
     n = 0
     while baits:
